@@ -19,16 +19,12 @@ def special_programs(rng, n):
     multi-output operators, multi-stage rechunks."""
     out = []
     for _ in range(n):
-        kind = rng.choice(["region", "full", "unstack", "rechunk2", "scan"])
+        kind = rng.choice(["region", "region", "region", "full", "unstack", "rechunk2", "scan"])
         r, c = rng.choice([(6, 8), (8, 6), (12, 4), (9, 9)])
         cr, cc = rng.choice([1, 2, 3]), rng.choice([2, 4])
         inp = dict(shape=[r, c], chunks=[cr, cc], dtype="int64", seed=rng.randint(0, 9), pattern="lin", src="asarray")
         if kind == "region":
-            tr, tc = r * 2, c + cc * 2
-            r0 = cr * rng.randint(0, r // cr)
-            c0 = cc * rng.randint(0, 2)
-            steps = [dict(op="negative", args=[0]),
-                     dict(op="store_region", args=[1], kw=dict(tshape=[tr, tc], tchunks=[cr, cc], region=[[r0, r0 + r], [c0, c0 + c]]))]
+            steps, inp = programs.region_store_steps(rng)
         elif kind == "full":
             steps = [dict(op="scalar_add", args=[0], kw=dict(k=2)),
                      dict(op="store_full", args=[1], kw=dict(tchunks=[rng.choice([2, 3, 4]), rng.choice([2, 3])]))]
